@@ -20,7 +20,14 @@ THEOREMS = [
     "C09.dfs_complete_oracle_code",
     "C09.topCandidates_needs_fieldOk",
     "C09.ruleNameR_unique",
+    # disabled rules / negated query goal (RreModel/C09/Ext.lean)
+    "C09.remap_enabled",
+    "C09.remap_disabled",
+    "C09.candStep_disabled_noop",
+    "C09.neg_search_facts_reachable",
+    "C09.queryNeg_eq_fast",
 ]
+LEAN_TARGETS = ["RreModel.C09.Theorems", "RreModel.C09.ExtTheorems"]
 N = {"quick": 1500, "thorough": 20000}
 EXHAUSTIVE = {"quick": False, "thorough": False}
 RULE = ("cases = corpus (defect witnesses) + N generated problems (50% consistent-Horn KBs: one value per field, conjunctive "
@@ -41,6 +48,13 @@ RULE = ("cases = corpus (defect witnesses) + N generated problems (50% consisten
         "second assignment / Retract / Append, Err on the retry or the first attempt, wrong value, underivable condition, depth cut — then a later "
         "alternative succeeds and the enclosing rule fails on an underivable last conjunct) and N/8 problems whose rules carry Append / Retract / "
         "MethodCall(setSpeed) actions before / after their Set over facts holding arrays and objects, each under EVERY strategy (see C10 part B). "
+        "+ N/10 DISABLED-rule problems (`*rule` = `enabled = false`; the forward engine never fires such a rule, so the forward closure and the "
+        "completeness clause are over the ENABLED rules), each under EVERY strategy: the only rule concluding the goal is disabled (linear-fallback "
+        "path), it concludes a sub-goal of an enabled rule one or two levels down (rule_could_prove_pattern path), it has the wrong / the only right "
+        "value beside an enabled rival (top level and one level down), it stands beside an enabled rule on the same field (index non-empty), the goal "
+        "already holds, it would undo (Retract / second Set) what an enabled rule derived, and random Horn / chain / interference KBs with 1..3 random "
+        "rules disabled; a quarter of them also as the NEGATED query; + N/10 negated-query problems `NOT <atom>` (see C10 part B (3); oracles (ii), "
+        "(iii) and the model comparison only - clauses (i), (iv) are stated for atomic goals). "
         "Each case runs BackwardEngine::query on a fresh engine (real code); observed: provable, "
         "get_all_facts after, undo depth after (hook), #solutions. Oracles evaluated by the Lean driver on the implementation's "
         "observations, none of them running the search model: (i) provable => goal comparison true in the facts handed back; "
@@ -106,7 +120,12 @@ LEVEL_TEXT = ("Lean 4 theorems (kernel-checked, unbounded: every KB, store, goal
               "extract_field_from_goal recovers the name, C16.from_rules_complete gives the rule, the non-empty lookup keeps the fallback off), "
               "dfs_complete_code / dfs_complete_oracle_code (= dfs_complete / dfs_complete_oracle with these lists and EVERY enumeration of the "
               "top-level HashSet, no Covers hypothesis), topCandidates_needs_fieldOk (a field named `a==b` is cut at its first `==`: witness that "
-              "the name hypothesis is needed), ruleNameR_unique (the tie's rule names R<i> are pairwise different, for every KB). Tied to the code by differential testing with "
+              "the name hypothesis is needed), ruleNameR_unique (the tie's rule names R<i> are pairwise different, for every KB). DISABLED rules "
+              "(after fix F-C09f): the search model runs on the knowledge base FILTERED TO ITS ENABLED RULES (Ext.enabledRules), so every theorem above, "
+              "stated for every kb and candidate list, is about the enabled rules only (Reach = forward closure ignoring disabled rules); the candidate "
+              "lists are computed on the full rule list and renumbered: remap_enabled (an enabled candidate is executed as itself), remap_disabled + "
+              "candStep_disabled_noop (a disabled / unknown candidate opens a frame and nothing else: never executed). Negated query goals: "
+              "neg_search_facts_reachable, queryNeg_eq_fast. Tied to the code by differential testing with "
               "set-valued predictions, and by four model-free oracles (goal holds, explicit forward-reachability search, facts "
               "restored / no leaked frames, bounded completeness against a reference derivation-level computation) evaluated on "
               "the implementation's observations under every strategy.")
@@ -114,7 +133,8 @@ LEVEL_NOTE = ("Bounded completeness is proved for knowledge bases whose actions 
               "facts) and derivations through conjunctive equality rules without Integer literals; outside that fragment it is false of "
               "model and code (known findings F-C09b: Integer literal in a sub-goal, F-C09e: a later sub-proof overwrites an earlier "
               "one) and only the runtime oracles (iv)/(iv-b) speak. That the candidate lists offer every rule assigning the wanted value is proved for the "
-              "model's candidate computation (topCandidates_covers, subCandidates_covers; rules all enabled, rule names unique, goal field name "
+              "model's candidate computation (topCandidates_covers, subCandidates_covers; stated for the enabled rules the search model runs on - with disabled "
+              "rules present the computed lists are supersets modulo renumbering, checked by the correspondence run only; rule names unique, goal field name "
               "without `==` / outer blanks, index built from the current rule set); that this computation is the code's is checked by the "
               "correspondence run (the driver runs exactly these functions). "
               "Soundness clause (i) is false for max_solutions > 1 (C09.query_sound_counterexample, known finding F-C09c). Trusted: Lean "
